@@ -257,6 +257,66 @@ Definition spec_step (f : front) (o : wopts) (roots : list bytes) (m : mstate) (
     end
   end.
 
+(* ---- the reference map with the readers' size limits --------------------------------------------------
+   MaxAllowedSectionSize / MaxAllowedHeaderSize bound what the READ paths accept (the writers do not look at
+   them): a stored block whose section (CID + data) is longer than the limit cannot be read back, and --
+   because a lookup walks the stored blocks that carry the key's DIGEST in order -- it also aborts the
+   lookup of any later block with the same digest.  A length EQUAL to the limit is fine. *)
+Definition sec_len (b : bytes * bytes) : N := blen (fst b) + blen (snd b).
+Fixpoint m_find (o : wopts) (bs : stored_blocks) (k : bytes) (kp : cidp) : res (bytes * bytes) :=
+  match bs with
+  | [] => Err ENotFound
+  | b :: t =>
+    match cid_parse (fst b) with
+    | Some p =>
+        if bytes_eqb (c_digest p) (c_digest kp) then
+          if w_maxs o <? sec_len b then Err ESectionTooLarge
+          else if same_key (w_whole o) (fst b) k then Ok b
+          else m_find o t k kp
+        else m_find o t k kp
+    | None => m_find o t k kp
+    end
+  end.
+Definition m_get_lim (o : wopts) (m : mstate) (c : bytes) : out :=
+  match cid_parse c with
+  | None => OErr EOther
+  | Some p =>
+    if negb (w_storeid o) && is_identity p then OBytes (c_digest p)
+    else if m_closed m then OErr EClosed
+    else match m_find o (m_blocks m) c p with
+         | Ok b => OBytes (snd b)
+         | Err e => OErr e
+         end
+  end.
+Definition m_getsize_lim (o : wopts) (m : mstate) (c : bytes) : out :=
+  match cid_parse c with
+  | None => OErr EOther
+  | Some p =>
+    if is_identity p then OSize (Z.of_N (blen (c_digest p)))
+    else if m_closed m then OErr EClosed
+    else match m_find o (m_blocks m) c p with
+         | Ok b => OSize (Z.of_N (blen (snd b)))
+         | Err e => OErr e
+         end
+  end.
+(* hlen = length of the CARv1 header the store was opened with *)
+Definition m_roots_lim (o : wopts) (roots : list bytes) (hlen : N) : out :=
+  if w_maxh o <? hlen then OErr EHeaderTooLarge else OKeys roots.
+Definition spec_step_lim (f : front) (o : wopts) (roots : list bytes) (hlen : N) (m : mstate) (op : sop)
+  : mstate * out :=
+  match op with
+  | OpGet c =>
+      (m, match f with FSt readable => if readable then m_get_lim o m c else OErr EOther | _ => m_get_lim o m c end)
+  | OpGetSize c => (m, match f with FSt _ => not_offered | _ => m_getsize_lim o m c end)
+  | OpRoots =>
+      (m, match f with
+          | FBs => if m_closed m then OErr EOther else m_roots_lim o roots hlen
+          | FBf => m_roots_lim o roots hlen
+          | FSt _ => OKeys roots
+          end)
+  | _ => spec_step f o roots m op
+  end.
+
 Definition m_empty : mstate := mkm [] false false.
 (* "the file must not change any more" *)
 Definition m_frozen (m : mstate) : bool := m_closed m || m_finalized m.
